@@ -90,6 +90,24 @@ struct hop { int kind, blk, res; uint64_t inv, ret; int task; };       /* kind: 
 static struct hop hist[MAXHIST];
 static int nhist;
 
+uint64_t memc_payload_read(const void *p);
+void memc_payload_write(void *p, uint64_t v);
+
+#ifdef SIM_TSAN
+/* TSan fiber API: tasks are concurrent "threads" whose only synchronisation is what the library itself does */
+void *__tsan_get_current_fiber(void);
+void *__tsan_create_fiber(unsigned flags);
+void __tsan_destroy_fiber(void *fiber);
+void __tsan_switch_to_fiber(void *fiber, unsigned flags);
+static void *tsan_main, *tsan_fiber[MAXT];
+static int tsan_started[MAXT];
+# define TSAN_TO_TASK(t) do { __tsan_switch_to_fiber(tsan_fiber[t], tsan_started[t] ? 1u : 0u); tsan_started[t] = 1; } while (0)
+# define TSAN_TO_SCHED(final) __tsan_switch_to_fiber(tsan_main, (final) ? 0u : 1u)
+#else
+# define TSAN_TO_TASK(t) do { } while (0)
+# define TSAN_TO_SCHED(final) do { } while (0)
+#endif
+
 #define VIOL(oracle, ...) do { char _k[160]; \
         snprintf(_k, sizeof _k, "C06/%s/%s/%s", oracle, cur >= 0 && tk[cur].in_op ? c_opname(tk[cur].ops[tk[cur].pc].kind) : "sched", g_cur_ctx); \
         sim_violation(_k, __VA_ARGS__); } while (0)
@@ -100,6 +118,7 @@ static void fiber_yield(void)
 {
     struct task *t = &tk[cur];
     t->saved_inlib = g_inlib;
+    TSAN_TO_SCHED(0);
     swapcontext(&t->ctx, &sched_ctx);
     g_inlib = t->saved_inlib;
 }
@@ -109,6 +128,7 @@ static void fiber_escape(void)
     /* called by sim_violation: leave the fiber for good, the scheduler unwinds the run */
     if (cur >= 0) {
         pending_violation = 1;
+        TSAN_TO_SCHED(1);
         swapcontext(&tk[cur].ctx, &sched_ctx);
     }
 }
@@ -153,6 +173,7 @@ static void on_atomic(const char *file, int line, const volatile void *addr, int
         tk[cur].last_line = line;
         fiber_yield();                  /* park *before* the operation; whoever runs next is the scheduler's choice */
     }
+    if (cur >= 0) { g_run.opkind = tk[cur].ops[tk[cur].pc].kind; g_run.step = (int)steps; }
     /* the access is imminent now: the block must still be allocated */
     id = simheap_find((const void *)addr, &live, &off, &size);
     if (id < 0 || !live) {
@@ -209,7 +230,7 @@ static void clear_common(int b, void *ptr)
     EVT("clear", cur + 1, b, 0);
     if (ptr != baddr[b]) { g_cur_ctx = "clear"; VIOL("clear_wrong_memory", "clear callback of allocation %d invoked on other memory", b); }
     if (cleared[b]) { g_cur_ctx = "clear"; VIOL("cleared_twice", "the clear callback of allocation %d ran twice", b); }
-    if (!simheap_is_live(ptr) || *(uint64_t *)ptr != PMAGIC + (uint64_t)b) { g_cur_ctx = "clear"; VIOL("clear_after_free", "clear callback ran on released or overwritten memory"); }
+    if (!simheap_is_live(ptr) || memc_payload_read(ptr) != PMAGIC + (uint64_t)b) { g_cur_ctx = "clear"; VIOL("clear_after_free", "clear callback ran on released or overwritten memory"); }
     /* never earlier: no shared pointer for which share/lock has returned success and whose reset has not been invoked */
     if (definite_owners(b, own)) {
         g_cur_ctx = "clear";
@@ -342,7 +363,7 @@ static void run_op(int t, const op_t *o)
         g_inlib = 1; p = cstl_shared_ptr_get_const(&d->p); g_inlib = 0;
         if (d->known >= 0) {
             if (p != (const void *)baddr[d->known]) VIOL("get_wrong", "get of an owner does not return the allocation's address");
-            if (!simheap_is_live(p) || *p != PMAGIC + (uint64_t)d->known) {
+            if (!simheap_is_live(p) || memc_payload_read(p) != PMAGIC + (uint64_t)d->known) {
                 g_cur_ctx = "use-after-free";
                 VIOL("owner_sees_dead_memory", "an owner read its managed memory and found it released or overwritten (allocation %d)", d->known);
             }
@@ -385,6 +406,7 @@ static void task_main(int t)
         T->in_op = 0;
     }
     T->done = 1;
+    TSAN_TO_SCHED(1);          /* "join": everything the task did happens-before what main does next */
     swapcontext(&T->ctx, &sched_ctx);
     for (;;) swapcontext(&T->ctx, &sched_ctx);  /* never resumed */
 }
@@ -450,6 +472,7 @@ static void run_tasks(void)
         last_picked = t;
         g_run.statehash = fnv1a(g_run.statehash, (uint64_t)t * 1000 + (uint64_t)tk[t].last_line);
         cur = t; tk[t].steps++;
+        TSAN_TO_TASK(t);
         swapcontext(&sched_ctx, &tk[t].ctx);
         cur = -1;
         g_inlib = 0;
@@ -568,7 +591,7 @@ static void c_exec(const plan_t *p)
         if (baddr[b] == NULL) sim_harness_bug("memc: setup allocation failed");
         for (e = 0; e < g_nhev; e++) if (g_hev[e].kind == 'A' && n < 4) ids[n++] = g_hev[e].id;
         for (e = 0; e < n; e++) { if (ids[e] == simheap_id(baddr[b])) bpayload[b] = ids[e]; else bbook[b] = ids[e]; }
-        *(uint64_t *)baddr[b] = PMAGIC + (uint64_t)b;
+        memc_payload_write(baddr[b], PMAGIC + (uint64_t)b);
         set_owner(&root[b], b);
     }
     for (t = 0; t < K; t++) {
@@ -599,6 +622,11 @@ static void c_exec(const plan_t *p)
         getcontext(&tk[t].ctx);
         tk[t].ctx.uc_stack.ss_sp = stacks[t]; tk[t].ctx.uc_stack.ss_size = STACKSZ; tk[t].ctx.uc_link = &sched_ctx;
         makecontext(&tk[t].ctx, (void (*)(void))task_main, 1, t);
+#ifdef SIM_TSAN
+        if (!tsan_main) tsan_main = __tsan_get_current_fiber();
+        if (tsan_fiber[t]) __tsan_destroy_fiber(tsan_fiber[t]);
+        tsan_fiber[t] = __tsan_create_fiber(0); tsan_started[t] = 0;
+#endif
     }
     cap = 64 * (uint64_t)(totalops + K) + 64;
     g_run.statehash = 0xcbf29ce484222325ull;
